@@ -19,6 +19,7 @@ import Pycel.Lemmas.FormulaParse
 import Pycel.Lemmas.FormulaEmit
 import Pycel.Lemmas.FormulaNumber
 import Pycel.Lemmas.FormulaAmend
+import Pycel.Model.Formula.OpsSem
 namespace Pycel.Formula
 
 /-! ### "negation binds tighter than %, then ^, then * /, then + -, then &, then comparisons" — the live table -/
@@ -156,6 +157,18 @@ theorem C02_sound (sem : Sem α) (s : Surf) (h : s.wf = true) (he : (erase s).em
 theorem C02_sound_raw (sem : Sem α) (s : Surf) (h : s.wf = true) (hr : s.rawOk = true) (he : (erase s).emittable) :
     (((parseRaw (toks s)).bind buildAst).bind fun e => (pyParse (emit e)).map (evalPy sem)) =
       some (evalExcel sem (erase s)) := by
+  simp [C02_parse_raw s h hr, C02_build, C02_emit _ he, evalPy_toPy]
+
+/-- **the instance the correspondence runs**: with C10's operator model (`Pycel.Ops.fixup` over the concrete Python
+    kernels, literals as Python reads them, cell reads from `env`, `eval_func`'s blank -> 0) as the run-time
+    semantics, the value of the compiled code is the value of the formula by Excel's grammar.  `opsSem` is exactly
+    what `drv_c02` evaluates (`c02 val`), so a precedence / associativity defect of the implementation shows as a
+    difference between `eval_formula` and `finalValue (evalExcel (opsSem env) (erase s))` on mixed-type operands. -/
+theorem C02_sound_ops (env : List (List Char × Val)) (s : Surf) (h : s.wf = true) (hr : s.rawOk = true)
+    (he : (erase s).emittable) :
+    (((parseRaw (toks s)).bind buildAst).bind fun e =>
+        (pyParse (emit e)).map fun p => finalValue (evalPy (opsSem env) p)) =
+      some (finalValue (evalExcel (opsSem env) (erase s))) := by
   simp [C02_parse_raw s h hr, C02_build, C02_emit _ he, evalPy_toPy]
 
 /-! ### non-vacuity -/
